@@ -67,6 +67,10 @@ def scenario(chk, i):
     cfg.pop("input_filter", None)
     cfg.pop("input_flags", None)
     inp = job["inputs"][i % len(job["inputs"])]
+    if name == "buffers":
+        # the longest input: more buffer operations, longer tokens after a switch to a larger
+        # buffer (a REJECT scanner's state buffer is regrown there)
+        inp = max(job["inputs"], key=lambda x: sum(len(s_) for s_ in x["sources"]))
     if name == "delivery":
         # tiny initial buffer and a long token: the growing yyrealloc calls of
         # yy_get_next_buffer() are among the enumerated requests
@@ -166,7 +170,11 @@ def alloc_worker1(args):
                 # the run completed: acceptable only if the failed request was not needed,
                 # i.e. the stream is exactly the undisturbed one
                 if ev == bev:
-                    feat("fault_tolerated_identical_stream")
+                    # the same stream as without the fault: the failure was swallowed (for
+                    # instance by keeping a smaller old block while recording the new size);
+                    # the property asks for a report of every failed request
+                    bad = ("absorbed", "allocation request %d failed, nothing was reported and the "
+                           "scanner ran to the end" % k)
                 else:
                     bad = ("absorbed", "allocation request %d failed, the scanner carried on and "
                            "produced a different stream" % k)
